@@ -8,7 +8,8 @@
        the hasher);
    (3) the observers of the unordered map do not reveal insertion order / table order.
    The end-to-end sentence is explored differentially by harness/h12c (see props/c12.py). *)
-From C12 Require Import Canon CanonProofs.
+From C12 Require Import Canon CanonProofs Maps OrderedProofs UnorderedProofs.
+From Coq Require Import Permutation.
 Local Open Scope N_scope.
 
 (* (1) The canonical program does not depend on which ids interning handed out -- hence not on the
@@ -73,8 +74,94 @@ Proof.
   eexists. split; [vm_compute; reflexivity|]. vm_compute. repeat split; reflexivity.
 Qed.
 
+(* (2) Iteration order of the ordered map / set is a function of the insertion/removal sequence only.
+   [h_run pl ops] is the hashed model of IndexMap (entries vector + index table, lookups through the
+   table) run under an ARBITRARY placement [pl] of indices in the table (hash function, seed,
+   capacity, probing history); [spec_run ops] is the association-list semantics, which does not
+   mention [pl].  Operations: insert (overwrite keeps the position), entry().or_insert / set insert,
+   swap_remove, shift_remove, pop, clear. *)
+Theorem C12_ordered_iteration : forall (pl : placement) (ops : list oop),
+  h_to_list (h_run pl ops) = spec_run ops.
+Proof. exact ordered_iteration. Qed.
+
+Theorem C12_ordered_iteration_sequence_only : forall (pl1 pl2 : placement) (ops : list oop),
+  h_to_list (h_run pl1 ops) = h_to_list (h_run pl2 ops).
+Proof. exact ordered_iteration_sequence_only. Qed.
+
+(* (3) Every observer the unordered map exposes is invariant under the raw table order: two tables
+   holding the same finite map ([uequiv]: distinct keys, same get) answer identically.
+   Map-valued observers (aggregate_by, filter, map) return [uequiv] tables again, so the statement
+   composes.  Side conditions, stated precisely: iter_sorted_by_key needs a key that does not tie on
+   the entries ([inj_on]); aggregate_by needs r (r a x) y = r (r a y) x ([left_comm]). *)
+Theorem C12_unordered_observers : forall m1 m2, uequiv m1 m2 ->
+  (forall k, u_get m1 k = u_get m2 k)
+  /\ u_len m1 = u_len m2
+  /\ (forall k, u_contains_key m1 k = u_contains_key m2 k)
+  /\ u_iter_sorted m1 = u_iter_sorted m2
+  /\ (forall f, inj_on f m1 -> u_iter_sorted_by_key f m1 = u_iter_sorted_by_key f m2)
+  /\ (forall pl1 pl2 g r d, left_comm r -> uequiv (u_aggregate_by pl1 g r d m1) (u_aggregate_by pl2 g r d m2))
+  /\ (forall pl1 pl2 p, uequiv (u_filter pl1 p m1) (u_filter pl2 p m2))
+  /\ (forall pl1 pl2 f, uequiv (u_map pl1 f m1) (u_map pl2 f m2))
+  /\ (forall n1 n2, uequiv n1 n2 -> u_eq m1 n1 = u_eq m2 n2).
+Proof. exact unordered_observers. Qed.
+
+(* ... and the tables are [uequiv] whenever the operation sequences agree on the last write of
+   every key (last write wins; a remove is a write of "absent"), whatever the two placements: *)
+Theorem C12_unordered_last_write_wins : forall pl1 pl2 ops1 ops2,
+  (forall k, last_write ops1 k None = last_write ops2 k None) ->
+  uequiv (u_run pl1 ops1) (u_run pl2 ops2).
+Proof. exact unordered_runs. Qed.
+
+(* in particular when distinct keys are inserted in a permuted order *)
+Theorem C12_unordered_permuted_insertions : forall pl1 pl2 (l1 l2 : list entry),
+  NoDup (map fst l1) -> Permutation l1 l2 ->
+  uequiv (u_run pl1 (map uins l1)) (u_run pl2 (map uins l2)).
+Proof. exact unordered_permuted_insertions. Qed.
+
+(* the two side conditions cannot be dropped: these observers DO reveal the raw order otherwise *)
+Theorem C12_aggregate_by_needs_commutativity :
+  exists m1 m2 pl, uequiv m1 m2 /\
+    u_get (u_aggregate_by pl (fun _ => 0) (fun a v => 2 * a + v) 0 m1) 0
+    <> u_get (u_aggregate_by pl (fun _ => 0) (fun a v => 2 * a + v) 0 m2) 0.
+Proof. exact aggregate_by_order_sensitive. Qed.
+
+Theorem C12_sorted_by_key_needs_injectivity :
+  exists m1 m2, uequiv m1 m2 /\ u_iter_sorted_by_key (fun _ => 0) m1 <> u_iter_sorted_by_key (fun _ => 0) m2.
+Proof. exact sorted_by_key_order_sensitive. Qed.
+
+(* non-vacuity for the maps: an operation sequence with an overwrite and a swap_remove under two
+   different placements; two insertion orders of an unordered map under two placements whose raw
+   tables differ while all observers agree *)
+Example C12_maps_example :
+  let ops := [OInsert 5 1; OInsert 9 2; OInsert 7 3; OInsert 9 4; OSwapRemove 5; OEntryOrInsert 5 8] in
+  let pa : placement := fun _ _ => O in
+  let pb : placement := fun k n => n in
+  h_table (h_run pa ops) <> h_table (h_run pb ops)
+  /\ h_to_list (h_run pa ops) = [(7, 3); (9, 4); (5, 8)]
+  /\ h_to_list (h_run pb ops) = [(7, 3); (9, 4); (5, 8)]
+  /\ let l1 := [(3, 30); (1, 10); (2, 20)] in
+     let l2 := [(2, 20); (3, 30); (1, 10)] in
+     u_run pa (map uins l1) <> u_run pb (map uins l2)
+     /\ uequiv (u_run pa (map uins l1)) (u_run pb (map uins l2))
+     /\ u_iter_sorted (u_run pa (map uins l1)) = [(1, 10); (2, 20); (3, 30)].
+Proof.
+  cbv zeta. split; [vm_compute; discriminate|]. split; [vm_compute; reflexivity|].
+  split; [vm_compute; reflexivity|]. split; [vm_compute; discriminate|].
+  split; [|vm_compute; reflexivity].
+  apply unordered_permuted_insertions.
+  - cbn. repeat constructor; cbn; intuition discriminate.
+  - symmetry. apply (Permutation_cons_append [(3, 30); (1, 10)] (2, 20)).
+Qed.
+
 Print Assumptions C12_canon_invariant.
 Print Assumptions C12_canon_invariant_any.
 Print Assumptions C12_canon_total.
 Print Assumptions C12_canon_idempotent.
 Print Assumptions C12_canon_declared_order.
+Print Assumptions C12_ordered_iteration.
+Print Assumptions C12_ordered_iteration_sequence_only.
+Print Assumptions C12_unordered_observers.
+Print Assumptions C12_unordered_last_write_wins.
+Print Assumptions C12_unordered_permuted_insertions.
+Print Assumptions C12_aggregate_by_needs_commutativity.
+Print Assumptions C12_sorted_by_key_needs_injectivity.
